@@ -160,7 +160,7 @@ Definition route_table : list row := [
   {| rt_key := """/custom_static/"""; rt_gate := GPublic; rt_steps := [] |};
   {| rt_key := "runtimeState.u2fRegisterRequest"; rt_gate := GMask MWebUI XSelfOrAdminU2F;
      rt_steps := [SCheck; SAuth MWebUI; SSelfOrAdminU2F; SCheck; SEff EChange] |};
-  (* POST only since fix 6ebb558 (the method test comes after the body and the profile were read) *)
+  (* POST only since fix 8abc791 (the method test comes after the body and the profile were read) *)
   {| rt_key := "runtimeState.u2fRegisterResponse"; rt_gate := GMask MWebUI XSelfOrAdminU2F;
      rt_steps := [SCheck; SAuth MWebUI; SSelfOrAdminU2F; SCheck; SMeth [POST]; SCheck; SEff EChange] |};
   {| rt_key := "runtimeState.u2fSignRequest"; rt_gate := GMask MAny XNone;
